@@ -19,7 +19,7 @@ use types::Backend;
 
 fn usage() -> ! {
     eprintln!(
-        "usage:\n  harness replay <file> [--backend H|L|P] [--owned]\n  harness explore --family <name> --backend H|L|P --seed N --count N --out <file> [--threads N] [--owned|--borrowed] [--replay-dir D] [--max-replays N]\n  harness families"
+        "usage:\n  harness replay <file> [--backend H|L|P] [--owned|--borrowed] [--tries N]\n  harness explore --family <name> --backend H|L|P --seed N --count N --out <file> [--threads N] [--owned|--borrowed] [--replay-dir D] [--max-replays N]\n  harness families"
     );
     std::process::exit(2)
 }
@@ -35,9 +35,14 @@ fn main() {
             let mut file = None;
             let mut backend = None;
             let mut owned = None;
+            let mut tries = 1usize;
             let mut i = 1;
             while i < args.len() {
                 match args[i].as_str() {
+                    "--tries" => {
+                        i += 1;
+                        tries = args.get(i).and_then(|s| s.parse().ok()).unwrap_or_else(|| usage());
+                    }
                     "--backend" => {
                         i += 1;
                         backend = args.get(i).and_then(|s| Backend::parse(s));
@@ -60,7 +65,15 @@ fn main() {
             let (hb, ho) = replay::header_info(&text);
             let backend = backend.or(hb).unwrap_or(Backend::H);
             let owned = owned.or(ho).unwrap_or(false);
-            let r = replay::replay(&text, "replay", backend, owned, &format!("file={}", file));
+            // Backends H and P: the schedule in the file was recorded for one HashMap iteration
+            // order; with another order the run may diverge (labels get skipped). `--tries N`
+            // re-executes until the replay follows the file exactly (or N attempts are used up).
+            let mut r = replay::replay(&text, "replay", backend, owned, &format!("file={}", file));
+            let mut n = 1;
+            while r.divergences > 0 && n < tries.max(1) {
+                r = replay::replay(&text, "replay", backend, owned, &format!("file={} try={}", file, n + 1));
+                n += 1;
+            }
             print!("{}", r.text);
         }
         "explore" => {
